@@ -160,7 +160,7 @@ CHECKS = {
         "free-buffer read, or success with the free-buffer read refused by a status) for versions 8 and 13, judged feed by feed against a two-counter model: a feed raises exactly when "
         "it is a failure and at least the 5th consecutive one, any success clears the run; plus Hypothesis sequences of up to "
         "400 feeds crossing the 180-feed read-and-clear period (and with the period patched to 3 and 5) for versions "
-        "4/7/8/13/14. The simulator checks the commands seen per feed (nop on v4; readCounters or, on period multiples, "
+        "4/7/8/13/14/15. The simulator checks the commands seen per feed (nop on v4; readCounters or, on period multiples, "
         "readAndClearCounters, followed by getValue(FREE_BUFFERS) after a successful read).",
         "ControllerApplication built with the zigpy.util.Requests shim; feeds are driven by calling _watchdog_feed() directly.",
         "exhaustive outcome-sequence enumeration to a length bound + Hypothesis long histories against a counter model",
@@ -172,7 +172,7 @@ CHECKS = {
         "against a simulated NCP on a virtual clock under Hypothesis-generated schedules: response status (OK, refusals, "
         "none) at a generated delay, matching and non-matching status events and scan result/completion callbacks placed "
         "before the request, before the response and after it (including at 10 s boundaries), duplicate completions, caller "
-        "cancellation; 1-8 (thorough 1-20) operations in a row on the same objects, versions 4/6/8/13/14. A reference "
+        "cancellation; 1-8 (thorough 1-20) operations in a row on the same objects, versions 4/6/8/13/14/15. A reference "
         "function computes the set of acceptable outcomes from the schedule (ok / documented refusal error / TimeoutError "
         "inside [request+10 s, response+10 s] / cancelled; scan result lists); after every operation the callback and "
         "status-listener counts must be back at baseline, and a probe event reaches exactly the baseline handlers.",
@@ -256,7 +256,7 @@ CHECKS = {
     ),
     "C12": (
         "exploration",
-        "ControllerApplication.send_packet() on a virtual clock against a simulated NCP (versions 4, 8, 13, 14; thorough 4..14): "
+        "ControllerApplication.send_packet() on a virtual clock against a simulated NCP (versions 4, 8, 13, 14, 15; thorough 4..16 - versions above 14 are served with the v14 tables): "
         "Hypothesis plans of 1-6 overlapping requests to distinct devices (unicast plain / source-routed / extended-timeout, "
         "IEEE-addressed known and unknown, multicast, broadcast) with per-attempt enqueue statuses (accepted, each busy code of "
         "the version's status family, refusals incl. undefined codes) and per-request confirmation behaviour (success, failure, "
@@ -273,7 +273,7 @@ CHECKS = {
         "write_network_info() followed by load_network_info(load_devices=True) on a real ControllerApplication against a "
         "stateful simulated NCP (reset with version re-negotiation, leave, form, stack-status callbacks, initial/current "
         "security state, key export in the pre-v13 and v13/v14 forms, link-key table, child table, NV3 and manufacturing "
-        "tokens) for every protocol version 4..14 with Hypothesis-generated network/node information and NCP capabilities, the "
+        "tokens) for every protocol version 4..14 (and NCPs reporting 15, 16) with Hypothesis-generated network/node information and NCP capabilities, the "
         "NCP factory-fresh or still holding an earlier network (other keys, non-zero counters, link keys, children). "
         "Read-back must equal what was written for PAN, extended PAN, channel, mask, update id, network key and sequence, "
         "frame counter (v5+), trust-centre link key incl. the hashed form, link keys as a set of (partner, key), children and "
